@@ -399,6 +399,15 @@ class Check:
             lines.append("  key:  %s" % key)
         stale = [k for k in known_keys if k not in seen_known]
         cov = dict(self.coverage_extra)
+        # keys the evidence schema types: an extra of another type is kept under <key>_detail, never in the typed slot
+        _typed = dict(states=int, transitions=int, traces_validated_against_impl=int, obligations=int, discharged=int,
+                      checker_cmd=str, trusted_base=list, programs=int, disagreements_checked=int, explanation=str)
+        for k, t in _typed.items():
+            if k in cov and (not isinstance(cov[k], t) or isinstance(cov[k], bool)):
+                v = cov.pop(k)
+                cov[k + "_detail"] = v
+                if t is int and isinstance(v, (list, tuple, dict, set)):
+                    cov[k] = len(v)
         cov.update(
             evaluations=p.evaluations,
             distinct_nontrivial=len(p.keys),
